@@ -32,6 +32,22 @@ def main():
                 continue
             lines = src_cache.setdefault(r["file"], open(os.path.join("/repo", r["file"])).read().split("\n"))
             i = r["line"] - 1
+            if "new_lines" in r:
+                if lines[i].strip()[:140] != r["text"]:
+                    continue
+                j = r["end"]
+                k = 0
+                while True:
+                    old = "\n".join(lines[i - k:j])
+                    if "\n".join(lines).count(old) == 1 or k > 6:
+                        break
+                    k += 1
+                new = "\n".join(lines[i - k:i] + r["new_lines"])
+                m = dict(id=(sys.argv[sys.argv.index("--name") + 1] if "--name" in sys.argv else "sweep") + "-%s-%d-%s" % (os.path.basename(r["file"]).replace(".rs", ""), r["line"], r["op"].lower()), props=t.get("props", []), edits=[dict(file=r["file"], old=old, new=new)], note=t.get("why", ""))
+                if t["verdict"] == "equivalent":
+                    m["neutral"] = True
+                out.append(m)
+                continue
             if lines[i][r["col"]:r["col"] + len(r["old"])] != r["old"]:
                 continue
             newline = lines[i][:r["col"]] + r["new"] + lines[i][r["col"] + len(r["old"]):]
